@@ -36,7 +36,10 @@ theorem lockEv_le (h : Heap) (i : Nat) : Le h (lockEv h i).1 := by
 
 theorem shareEv_le (h : Heap) (i : Nat) : Le h (shareEv h i) := by
   unfold shareEv
-  exact foldl_pre Le Le.refl (fun _ _ _ => Le.trans) _ (fun acc j => lockEv_le acc j) _ _
+  exact foldl_pre Le Le.refl (fun _ _ _ => Le.trans) _ (fun acc j => by
+    unfold shareNode; split
+    · exact propLockF_le _ _ _ _
+    · exact lockEv_le acc j) _ _
 
 /-! ### `unlock_` -/
 
